@@ -1,6 +1,7 @@
 """C05 - the indexed heap is a correct priority queue for every operation sequence.
 
-A  design level : HeapImpl (array heap as coded) refines PQ (abstract queue), TLC, both policies.
+A  design level : HeapImpl (array heap as coded) refines PQ (abstract queue), TLC, both policies; PQ's own step facts are
+                  also proved for every capacity / cost set / policy by TLAPS (spec/proofs/PQProofs.tla, bin/prove).
 C  spec -> code : product exploration of the real opfython.core.Heap against the state graph TLC dumps
                   for PQ (every history within the bound, all tie-breaks admitted).
 B  code -> spec : random long histories of the real Heap (caps up to 20) judged by TLC with PQTrace.
@@ -444,6 +445,17 @@ def run(tier, seed):
         results = [(m, cap, pol, dump, f.result()) for (m, cap, pol, dump, f) in jobs]
     for m, cap, pol, dump, res in results:
         rep.add_tlc("%s Cap=%d Costs={0,1,2} %s" % (m, cap, pol), res)
+    # ---- A': unbounded facts about PQ (every capacity, cost set, policy) by TLAPS: TypeOK inductive, only an extremal element
+    # leaves the queue, nothing is lost, keys only improve, a returned element comes back only by Insert
+    import subprocess
+    pr = subprocess.run([os.path.join(H.VERIF, "bin", "prove")], capture_output=True, text=True, timeout=1200)
+    m = re.search(r"All (\d+) obligations proved", pr.stdout)
+    if pr.returncode == 0 and m:
+        rep.cov["tlaps"] = {"module": "spec/proofs/PQProofs.tla", "obligations_proved": int(m.group(1)), "theorems": ["TypeInvariant", "ExtremalStep", "StepFacts"]}
+    elif pr.returncode == 2:
+        rep.skip("tlapm_not_available")
+    else:
+        raise H.MachineryError("TLAPS proof of PQProofs failed\n" + (pr.stdout + pr.stderr)[-1500:])
     # ---- C: product exploration
     prod = []
     for m, cap, pol, dump, res in results:
